@@ -290,7 +290,9 @@ Record guards := {
   consteval_checks_surplus_operands : bool; (* const_evaluation.rs: the loop over args.iter().skip(l.args.len()) *)
   consteval_emits_value : bool;         (* const_evaluation.rs L949-990: the VALUE is emitted, not the visited body *)
   consteval_checks_set_idents : bool;   (* const_evaluation.rs L662 *)
-  consteval_static_arity : bool         (* const_evaluation.rs L805-824 *)
+  consteval_static_arity : bool;        (* const_evaluation.rs L805-824 *)
+  consteval_operands_outer_scope : bool (* const_evaluation.rs `constant_operands` (visit_list, visit_let): whether an operand is a
+                                           constant is decided BEFORE the scope of the lambda / let is entered *)
 }.
 
 Definition all_on : guards :=
@@ -298,7 +300,8 @@ Definition all_on : guards :=
      plain_let_skips_short_calls := true; plain_let_builds_const_list := true;
      prune_if_quote_false_is_false := true; consteval_checks_rest_is_used := true;
      consteval_checks_surplus_operands := true; consteval_emits_value := true;
-     consteval_checks_set_idents := true; consteval_static_arity := true |}.
+     consteval_checks_set_idents := true; consteval_static_arity := true;
+     consteval_operands_outer_scope := true |}.
 
 Fixpoint size (e : exp) : nat :=
   match e with
@@ -458,7 +461,12 @@ with static_aritys (l : exps) : bool :=
    scope removes the names it binds (their marks were made on the inner environment object).
    Simplifications (all stated in the check's evidence): binder names are assumed distinct along a scope chain
    when `to_constant` is asked about an operand from inside the new scope (L910, L950 evaluate the operands in
-   the INNER environment); no `define` in a body (scope_contains_define = false); globals hold no constants. *)
+   the INNER environment) — since fix e50bef37 the operands are judged in the OUTER environment (guard
+   consteval_operands_outer_scope; the variant without it is refuted in Passes_Proofs_C01.v);
+   no `define` in a body (scope_contains_define = false); globals hold no constants.
+   A variable that is the target of a set! somewhere is written [Glob]/[SetG] by the translation (it is in
+   set_idents / expr_level_set_idents): visit_atom L662-666 and visit_set L1039 leave it alone but call `unbind`,
+   which marks a constant binding of that name as used (L136-140) — [cmark]. *)
 Inductive cbind := CConst (d : datum) | CNon.
 Definition cenv := list (string * cbind).
 
@@ -539,9 +547,13 @@ Fixpoint select {A} (keep : list bool) (l : list A) : list A :=
 (* the ArityMismatch stops (L711-713, L805-824) abort the compilation: modelled by a marker that nothing removes *)
 Definition arity_marker : exp := Glob "#%arity-mismatch".
 
+Definition cmark (c : cenv) (x : string) : list string :=
+  match cget c x with Some _ => [x] | None => [] end.
+
 Fixpoint cvisit (g : guards) (c : cenv) (e : exp) : exp * list string * bool :=
   match e with
-  | Num _ | Bool_ _ | Quote _ | Glob _ => (e, [], false)
+  | Num _ | Bool_ _ | Quote _ => (e, [], false)
+  | Glob x => (e, cmark c x, false)                     (* an assigned identifier: `unbind`, L662-666 *)
   | Loc x =>                                            (* visit_atom L649-683 *)
       match cget c x with
       | Some (DNum z) => (Num z, [x], false)
@@ -563,14 +575,15 @@ Fixpoint cvisit (g : guards) (c : cenv) (e : exp) : exp * list string * bool :=
         (If t' a' b', (u1 ++ read_names c t' ++ u2 ++ u3)%list, c1 || c2 || c3)
   | Begin es => let '(es', u, ch) := cvisits g c es in (Begin es', u, ch)
   | Prim op a => let '(a', u, ch) := cvisits g c a in (Prim op a', u, ch)
-  | SetG x e' => let '(e'', u, ch) := cvisit g c e' in (SetG x e'', u, ch)
+  | SetG x e' => let '(e'', u, ch) := cvisit g c e' in (SetG x e'', (cmark c x ++ u)%list, ch)   (* visit_set: unbind first *)
   | Let xs rhs b =>                                     (* visit_let L1041-1188 *)
       let '(rhs', u1, c1) := cvisits g c rhs in
       let rl := elist rhs' in
       let utc := flat_map (fun e0 => snd (to_const c e0)) rl in
       let c' := (rev (zipb c xs rl) ++ c)%list in
       let '(b', u2, c2) := cvisit g c' b in
-      let keep := map (fun xe => mem (fst xe) u2 || match fst (to_const c' (snd xe)) with None => true | Some _ => false end)
+      let cj := if consteval_operands_outer_scope g then c else c' in
+      let keep := map (fun xe => mem (fst xe) u2 || match fst (to_const cj (snd xe)) with None => true | Some _ => false end)
                       (combine xs rl) in
       let uout := (u1 ++ utc ++ notin xs u2)%list in
       if existsb (fun k => k) keep
@@ -606,7 +619,8 @@ Fixpoint cvisit (g : guards) (c : cenv) (e : exp) : exp * list string * bool :=
             else zipb c ps al in
           let c' := (rev binds ++ c)%list in
           let '(b', u2, c2) := cvisit g c' body in
-          let isnc := fun e0 => match fst (to_const c' e0) with None => true | Some _ => false end in
+          let cj := if consteval_operands_outer_scope g then c else c' in
+          let isnc := fun e0 => match fst (to_const cj e0) with None => true | Some _ => false end in
           let pairs := combine ps al in
           let any_used := existsb (fun xe => mem (fst xe) u2) pairs in
           let any_nonconst := existsb (fun xe => negb (mem (fst xe) u2) && isnc (snd xe)) pairs
@@ -659,6 +673,21 @@ Fixpoint sub_find (x : string) (sub : list (string * option string)) : option (o
   | (y, r) :: t => if String.eqb x y then Some r else sub_find x t
   end.
 
+(* AssignedIdentifiers (opt.rs, fix cfeb70d8): the targets of every set! in an expression *)
+Fixpoint sets (e : exp) : list string :=
+  match e with
+  | Num _ | Bool_ _ | Quote _ | Loc _ | Glob _ => []
+  | Lam _ _ b => sets b
+  | Call f a => (setss a ++ sets f)%list
+  | If c t e' => (sets c ++ sets t ++ sets e')%list
+  | Let _ r b => (setss r ++ sets b)%list
+  | Begin es => setss es
+  | Prim _ a => setss a
+  | SetG x e' => x :: sets e'
+  end
+with setss (l : exps) : list string :=
+  match l with ENil => [] | ECons e r => (sets e ++ setss r)%list end.
+
 Fixpoint rlets (args : list string) (sub : list (string * option string)) (e : exp) : exp :=
   match e with
   | Num _ | Bool_ _ | Quote _ | Glob _ => e
@@ -671,9 +700,11 @@ Fixpoint rlets (args : list string) (sub : list (string * option string)) (e : e
   | SetG x e' => SetG x (rlets args sub e')
   | Let xs rhs b =>
       let rl := elist (rletss args sub rhs) in
-      let tgt := fun e0 => match e0 with Loc r => if mem r args then Some r else None | _ => None end in
-      let bound := map (fun xe => (fst xe, tgt (snd xe))) (combine xs rl) in
-      let keep := map (fun e0 => match tgt e0 with Some _ => false | None => true end) rl in
+      let assigned := sets b in
+      let tgt := fun x e0 => if mem x assigned then None else
+                             match e0 with Loc r => if mem r args then Some r else None | _ => None end in
+      let bound := map (fun xe => (fst xe, tgt (fst xe) (snd xe))) (combine xs rl) in
+      let keep := map (fun xe => match tgt (fst xe) (snd xe) with Some _ => false | None => true end) (combine xs rl) in
       Let (select keep xs) (of_list (select keep rl)) (rlets args (bound ++ sub)%list b)
   end
 with rletss (args : list string) (sub : list (string * option string)) (l : exps) : exps :=
